@@ -98,6 +98,10 @@ type attachRun struct {
 	closerRel chan struct{}
 	closerAt  string
 	passed    atomic.Bool
+	expGate   atomic.Bool   // the next OnClientExpired call parks (schedule point hook.expired)
+	expArr    chan struct{} // the housekeeping has reached hook.expired
+	expRel    chan struct{}
+	expDone   chan struct{} // clearExpiredClients has returned
 	closeRet  chan struct{}
 	closeCli  chan struct{}
 	closer    string
@@ -131,10 +135,20 @@ type attachHook struct {
 
 func (h *attachHook) ID() string { return "verif-attach" }
 func (h *attachHook) Provides(b byte) bool {
-	return b == mqtt.OnUnsubscribed || b == mqtt.OnDisconnect || b == mqtt.OnConnectAuthenticate || b == mqtt.OnACLCheck
+	return b == mqtt.OnUnsubscribed || b == mqtt.OnDisconnect || b == mqtt.OnConnectAuthenticate || b == mqtt.OnACLCheck || b == mqtt.OnClientExpired
 }
 func (h *attachHook) OnConnectAuthenticate(*mqtt.Client, packets.Packet) bool { return true }
 func (h *attachHook) OnACLCheck(*mqtt.Client, string, bool) bool              { return true }
+
+// OnClientExpired is a schedule point of the housekeeping (clearExpiredClients): the first client object it discards
+func (h *attachHook) OnClientExpired(cl *mqtt.Client) {
+	r := h.r
+	if r.freeRun.Load() || !r.expGate.CompareAndSwap(true, false) {
+		return
+	}
+	r.expArr <- struct{}{}
+	<-r.expRel
+}
 
 // OnDisconnect is a schedule point of the teardown (after teardown.cleanup, before the test of isTakenOver).
 func (h *attachHook) OnDisconnect(cl *mqtt.Client, err error, expire bool) {
@@ -435,6 +449,38 @@ func (r *attachRun) step(st AttachStep) string {
 			case <-time.After(attachWait):
 				return "timeout"
 			}
+		case st.G == "hook.expired":
+			// the housekeeping runs at a time when every disconnected session has expired, up to its first OnClientExpired
+			r.current.Store(-1)
+			r.expGate.Store(true)
+			r.expDone = make(chan struct{})
+			go func(done chan struct{}) {
+				defer close(done)
+				defer func() { _ = recover() }()
+				r.srv.VerifTick("clients", time.Now().Unix()+5000000000) // beyond every interval, also the server maximum (MaxUint32 s)
+			}(r.expDone)
+			select {
+			case <-r.expArr:
+				return "hook.expired"
+			case <-r.expDone:
+				r.expGate.Store(false)
+				return "nothing-expired"
+			case <-time.After(attachWait):
+				return "timeout"
+			}
+		case st.G == "expire.finish":
+			r.current.Store(-1)
+			select {
+			case r.expRel <- struct{}{}:
+			case <-time.After(attachWait):
+				return "not-parked"
+			}
+			select {
+			case <-r.expDone:
+				return "expire.finish"
+			case <-time.After(attachWait):
+				return "timeout"
+			}
 		case st.G == "tick":
 			r.current.Store(-1)
 			// time passes beyond every delay; the housekeeping runs (at least) twice
@@ -558,7 +604,7 @@ func (r *attachRun) step(st AttachStep) string {
 // RunAttach executes one scenario and returns the recorded lines.
 func RunAttach(sc AttachScenario) []AttachLine {
 	r := &attachRun{sc: sc, closerArr: make(chan string, 4), closerRel: make(chan struct{}), closeRet: make(chan struct{}),
-		closeCli: make(chan struct{}, 1), closer: "idle", wills: map[string]int{}}
+		closeCli: make(chan struct{}, 1), closer: "idle", wills: map[string]int{}, expArr: make(chan struct{}, 2), expRel: make(chan struct{})}
 	caps := mqtt.NewDefaultServerCapabilities()
 	caps.MaximumClients = int64(sc.Max)
 	caps.MaximumSessionExpiryInterval = math.MaxUint32
@@ -640,6 +686,10 @@ func RunAttach(sc AttachScenario) []AttachLine {
 			}
 			select {
 			case r.closerRel <- struct{}{}:
+			default:
+			}
+			select {
+			case r.expRel <- struct{}{}:
 			default:
 			}
 			time.Sleep(200 * time.Microsecond)
